@@ -29,6 +29,9 @@ def norm(test, canon):
         return neg(norm(test.operand, canon))
     if isinstance(test, ast.Constant):
         return ("const", bool(test.value))
+    if isinstance(test, ast.IfExp):         # as a condition, `a if c else b` holds iff (c and a) or (not c and b)
+        c = norm(test.test, canon)
+        return ("or", (("and", (c, norm(test.body, canon))), ("and", (neg(c), norm(test.orelse, canon)))))
     if isinstance(test, ast.Compare):
         parts = []
         left = test.left
@@ -45,7 +48,8 @@ def norm(test, canon):
             return ("or", tuple(("isinstance", canon(test.args[0]), canon(t)) for t in test.args[1].elts))
         return ("isinstance", canon(test.args[0]), canon(test.args[1]))
     txt = canon(test)
-    if isinstance(test, ast.Name) and isinstance(txt, str) and txt != test.id and any(c in txt for c in "(<>=! "):
+    if ((isinstance(test, ast.Name) and isinstance(txt, str) and txt != test.id) or (isinstance(test, ast.Call) and isinstance(txt, str))) and any(c in txt for c in "(<>=! "):
+        # (or a call of a predicate helper that was read through: its canonical form is the predicate the helper returned on this path)
         # a boolean temporary whose canonical form is the predicate it was assigned (`inf = isinf(self.c)` ... `if inf:`)
         try:
             sub_ = ast.parse(txt, mode="eval").body
